@@ -29,7 +29,7 @@ TEXT = {
     },
     "C08": {
         "level": "Machine-checked refinement theorem over the server-loop model: for every event sequence (connections, byte arrivals split anywhere, closes, server polls), any number of connections, every well-behaved connection "
-                 "wherever it lives has had exactly its first k calls consumed, in order, once each, and its output (plus unwritten items of an open stream) equals the sequential per-connection reference; oneway calls answer nothing; and in every reachable idle state (no select branch can progress) every well-behaved connection whose bytes have all arrived has had ALL its calls answered (C08_quiescent). "
+                 "wherever it lives has had exactly its first k calls consumed, in order, once each, and its output (plus unwritten items of an open stream) equals the sequential per-connection reference; oneway calls answer nothing; and in every reachable idle state (no select branch can progress) every well-behaved connection whose bytes have all arrived has had ALL its calls answered (C08_quiescent); the model satisfies the very oracle that judges the implementation: in every reachable idle state every well-behaved client has been sent exactly SpecSrv.refOutCredit granted descs (C08_model_satisfies_oracle, via an accounting invariant of the results reply streams were allowed to hand over). "
                  "Differential run of the real Server::run future (manual executor, scripted listener/sockets) vs the model on 4k/60k schedules incl. the global service-invocation order.",
         "design_ref": "DESIGN.md §5 C08, §4.6", "note": RX_NOTE + " Server loop: Zlink/Model/Server.lean tied to server/mod.rs + select_all.rs by scenario `srv`; service = fixed test family; select_biased!/fuse polling order assumed as documented.",
         "technique": "Lean 4 proof (global invariant = conjunction of per-connection refinement invariants, preserved by every loop iteration and event); model-vs-implementation correspondence run",
@@ -83,7 +83,7 @@ TEXT = {
         "technique": "Lean 4 proof over a translator-extracted impl table (table agreement by kernel evaluation, lifted by induction) + compile-and-run correspondence over a generated derive corpus; round trip: theorem on the model (assembled description well-formed, then C14) and Lean oracle on the implementation's text",
     },
     "C13": {
-        "level": "Proof of the completeness direction for every layout + exhaustive-style correspondence. Machine-checked (unbounded in names, nesting depth, numbers of members / fields / variants / comments, and layout): every text of the grammar - given as an inductive relation between descriptions and texts with gaps of space/tab/CR/LF wherever tokens meet inside parentheses, around `:` `,` `->`, after keywords and between members, comment lines with arbitrary blanks in front of the interface, members, fields, parameters and custom-enum variants, members of the three kinds in any interleaving, optional gaps around the text - parses to exactly the description it denotes (C13_layout; C13_complete for the canonical text); the three name lexers are exact resp. complete for the grammar's regular expressions with longest match; parsing is total with two outcomes (no panic path in the model; the real parser runs under catch_unwind). Soundness is machine-checked too (every input text): whatever is accepted yields a description of grammatical names and parser-shaped comments (C13_sound_tree), and the accepted text is, after trimming, a text of the inductive grammar IfaceS denoting exactly that description - every byte a token of it, an attached comment or layout, nothing ignored (C13_sound_text; side condition: no variant-less inline enum in the result). The keywords, primitive names and punctuation the models use are extracted from the source on every run (C13_literals). Not proved: equality of the completeness grammar and the soundness grammar. The correspondence run (function-by-function parser port vs real parser, plus an independent oracle) covers ~65k (quick) / ~6M (thorough) legal, truncated, mutated, deeply nested and random texts.",
+        "level": "Proof of the completeness direction for every layout + exhaustive-style correspondence. Machine-checked (unbounded in names, nesting depth, numbers of members / fields / variants / comments, and layout): every text of the grammar - given as an inductive relation between descriptions and texts with gaps of space/tab/CR/LF wherever tokens meet inside parentheses, around `:` `,` `->`, after keywords and between members, comment lines with arbitrary blanks in front of the interface, members, fields, parameters and custom-enum variants, members of the three kinds in any interleaving, optional gaps around the text - parses to exactly the description it denotes (C13_layout; C13_complete for the canonical text); the three name lexers are exact resp. complete for the grammar's regular expressions with longest match; parsing is total with two outcomes (no panic path in the model; the real parser runs under catch_unwind). Soundness is machine-checked too (every input text): whatever is accepted yields a description of grammatical names and parser-shaped comments (C13_sound_tree), and the accepted text is, after trimming, a text of the inductive grammar IfaceS denoting exactly that description - every byte a token of it, an attached comment or layout, nothing ignored (C13_sound_text, unconditional: that the parser never returns an enum without variants is C13_no_empty_enum - the two layout skippers agree since fix ee9d3d0, so `( gap )` is always read as the empty struct; fuel invariant through the nine mutually recursive type parsers). Comment lines end with LF, CR LF or a lone CR in both grammars. The keywords, primitive names and punctuation the models use are extracted from the source on every run (C13_literals). Not proved: equality of the completeness grammar and the soundness grammar. The correspondence run (function-by-function parser port vs real parser, plus an independent oracle) covers ~65k (quick) / ~6M (thorough) legal, truncated, mutated, deeply nested and random texts.",
         "design_ref": 'DESIGN.md §5 C13, §11.7', "note": "Trusted: Lean kernel; the port of winnow's combinators and str::trim (tied to the code by the correspondence run); the generator's construction of expected trees; the tokenizer oracle. Not proved: that the two grammar relations coincide (IfaceS additionally admits layout comments in gaps, form feed after keywords, members without white space between them); the fuel argument that an inline enum always has a variant.",
         "technique": 'Lean 4 proof (inductive grammar relation; induction on parser fuel with a type-size measure; lexer exactness by induction; mutual structural recursion on derivations) on a function-by-function port of the parser; model-vs-implementation correspondence with an independent oracle',
     },
@@ -94,8 +94,8 @@ TEXT = {
     },
     "C19": {
         "level": "PARTIAL. Machine-checked: the write-all loop hands the whole buffer to the pipe for every partial-write behaviour; composed with the C02 refinement and C01 framing theorem, for every message list, partial-write schedule, read-size schedule and growth step the peer's receives return exactly the messages sent, in order, then EOF; "
-                 "ids from a counter are distinct; the cancellation clause is refuted on the model (a flush abandoned after a partial write makes the next send emit a frame never sent) and what does hold (nothing written => nothing corrupted) is proved. "
-                 "Real sockets: 46 (quick) / 330 (thorough) transfers up to 1 MiB in both directions on tokio and smol (including lists whose wire sizes sit exactly on read-buffer sizes: 255/256/257 first, powers of two, multiples of the growth step, each followed by a small message), bound and inherited-fd listeners with 1..8 connections, cancelled sends.",
+                 "ids from a counter are distinct; the cancellation clause is refuted on the model (a flush abandoned after a partial write makes the next send emit a frame never sent) and what does hold (nothing written => nothing corrupted) is proved; the write-all loop has no suspension point after the last byte was taken (C19_no_suspension_after_last_byte), so only a partial write followed by a drop can break `each frame at most once`. "
+                 "Real sockets: 46 (quick) / 330 (thorough) transfers up to 1 MiB in both directions on tokio and smol (including lists whose wire sizes sit exactly on read-buffer sizes: 255/256/257 first, powers of two, multiples of the growth step, each followed by a small message), bound and inherited-fd listeners with 1..8 connections, cancelled sends, and `pollonce` runs (70..200 small sends, each send future polled exactly once and dropped if still pending: only whole frames, each at most once, in order, every completed send's frame).",
         "design_ref": "DESIGN.md §5 C19", "note": "Trusted: Lean kernel; kernel socket = byte FIFO with partial writes (assumption); runtime scheduling, fd inheritance observed only. Known finding: a send abandoned after a partial write corrupts the peer's stream.",
         "technique": "Lean 4 proof (composition of the Tx refinement, a pipe lemma and the Rx framing theorem; counterexample by kernel evaluation); end-to-end runs on real Unix sockets with both runtimes",
     },
@@ -129,7 +129,7 @@ TEXT = {
     },
     "C05": {
         "level": "Machine-checked theorems: encode/decode round trip of calls for every variant with distinct field names, every well-typed argument list and all 8 flag combinations; flags appear only when set; the member list handed to the method type is exactly the non-flag members; "
-                 "error encoding shape and round trip (derived and standard errors); tag/content order independence; reply members only when present; absent/null/{} parameters for field-less variants. "
+                 "error encoding shape and round trip (derived and standard errors); tag/content order independence; reply members only when present; absent/null/{} parameters for field-less variants; every well-formed call (one `method` naming a variant, boolean flags anywhere, the right `parameters` in any accepted spelling, any member order) is decoded, never refused (C05_wellformed_call_accepted - the completeness predicate the driver evaluates on every frame the real Call deserializer refuses). "
                  "Exhaustive permutation sweep of call members (all orders of <= 5 members x 8 flag sets x 4 method types) and byte-for-byte encoder comparison against the real code.",
         "design_ref": "DESIGN.md §5 C05, §4.5", "note": "Trusted: as C04, plus the extractor for the flag names of call/ser.rs and call/de.rs. Known finding: `{}` parameters for a unit-output reply (receive_reply::<(), E>) are refused.",
         "technique": "Lean 4 proof (round-trip lemmas by induction on field lists, case analysis on flags) + exhaustive permutation correspondence run",
